@@ -562,9 +562,7 @@ tp_task_handler(int type, tp_event_p ev, tp_udata_p tp_udata,
 		/* Continue read/recv. */
 		/* Linux: never get here: data2transfer_size = UINT64_MAX, so
 		 * we go to err_out with errno = EAGAIN */
-		tptask->tot_transfered_size += transfered_size; /* Save transfered_size. */
-		cb_ret = TP_TASK_CB_CONTINUE;
-		goto call_cb_handle;
+		goto continue_io;
 	case TP_EV_WRITE:
 		/* Do IO: pwrite / send. */
 		while (transfered_size < data2transfer_size) { /* transfer loop. */
@@ -593,9 +591,7 @@ tp_task_handler(int type, tp_event_p ev, tp_udata_p tp_udata,
 		/* Continue write/send at next event. */
 		/* Linux: never get here: data2transfer_size = UINT64_MAX, so
 		 * we go to err_out with errno = EAGAIN */
-		tptask->tot_transfered_size += transfered_size; /* Save transfered_size. */
-		cb_ret = TP_TASK_CB_CONTINUE;
-		goto call_cb_handle;
+		goto continue_io;
 	default: /* Unknown filter. */
 		debugd_break();
 		error = ENOSYS;
@@ -608,6 +604,7 @@ err_out: /* Error. */
 	} else if (0 != SKT_ERR_FILTER(errno)) {
 		error = errno;
 	} /* else: would block: keep error reported by thread pool, if any. */
+continue_io: /* Continue IO at next event, if thread pool does not report error. */
 	if (0 == error) {
 		tptask->tot_transfered_size += transfered_size; /* Save transfered_size. */
 		cb_ret = TP_TASK_CB_CONTINUE;
